@@ -406,6 +406,87 @@ def rule_r7(F, rep):
                                                   "no longer checks the remainder of the character groups"), fn.loc)
 
 
+# RFC 8259 §6: number = [ minus ] int [ frac ] [ exp ]
+RFC8259_NUMBER = r"-?(0|[1-9][0-9]*)(\.[0-9]+)?([eE][-+]?[0-9]+)?"
+# what <f64 as FromStr> accepts over the alphabet of digits, sign, dot and e/E (core::num::dec2flt grammar: Number ::= (Digit+ |
+# Digit+ '.' Digit* | Digit* '.' Digit+) Exp?, Exp ::= 'e' Sign? Digit+); `inf`/`nan` spellings use letters no scanner here passes on
+RUST_F64 = r"[-+]?([0-9]+(\.[0-9]*)?|\.[0-9]+)([eE][-+]?[0-9]+)?"
+JSON_FOLLOW = [0x20, 0x09, 0x0A, 0x0D, ord(","), ord("]"), ord("}")]
+
+
+def rule_r8(F, rep):
+    from . import scanfsm, dfa
+    R = rep.rule("C20.R8", "the number scanners, as automata over all strings: the language of std.parseJson's lex_number (built from "
+                 "its MIR: state enum x next-character class -> next state / stop / error) equals the RFC 8259 §6 number grammar; a "
+                 "complete number stops without error before whitespace, `,`, `]`, `}` and the end of input, an incomplete one is "
+                 "never silently cut; std.parseYaml's plain-scalar number scanner accepts every RFC 8259 number; and neither scanner "
+                 "hands `<f64 as FromStr>` a string outside its grammar (its `unwrap()` would panic)")
+
+    def cls_json(o):
+        return "reject" if ("ParseErrorKind", "InvalidNumber") in o[2] else "accept"
+
+    def cls_yaml(o):
+        r = o[3]
+        return "reject" if (r and r[2] == "None") else "accept"
+    n = 0
+    fj = [f for f in F.fn_list if f.crate.name == "rsjsonnet_lang" and f.q.endswith("parse_json::Lexer>::lex_number")]
+    fy = [f for f in F.fn_list if f.crate.name == "rsjsonnet_lang" and f.q.endswith("parse_yaml::try_parse_number")]
+    if not fj or not fy:
+        rep.violation(R, "anchor|number-scanners", "parse_json::Lexer::lex_number / parse_yaml::try_parse_number not found (anchor)")
+        return
+    extra = [ord(c) for c in "+-.eE019,]}"] + [ord("9") + 1, ord("1") + 1]
+    sj = scanfsm.Scanner(F, fj[0], classify_exit=cls_json, extra_consts=extra)
+    sy = scanfsm.Scanner(F, fy[0], classify_exit=cls_yaml, extra_consts=extra)
+    rep.fn(fj[0], fy[0])
+    rep.states += sj.states_explored + sy.states_explored
+    for sc, nm in ((sj, "parse_json::lex_number"), (sy, "parse_yaml::try_parse_number")):
+        al = sc.al
+        L = sc.token_dfa()
+        eps = dfa.DFA.literal(al, "")
+        L1 = L & eps.complement()
+        rust = dfa.regex(al, RUST_F64)
+        json_l = dfa.regex(al, RFC8259_NUMBER)
+        n += len(sc.table)
+        w = scanfsm.witness(L1 & rust.complement())
+        rep.ob(R, "%s|subset-of-FromStr" % nm, w is None, {"scanner": nm, "states": sc.states, "symbols": al.n + 1, "accepted_but_not_a_float_literal": w})
+        if w is not None:
+            rep.violation(R, "%s|not-a-float-literal" % nm, "%s accepts %r, which `<f64 as FromStr>::from_str` rejects: the "
+                          "`parse().unwrap()` behind the scanner panics on it" % (nm, w), sc.fn.loc)
+        w = scanfsm.witness(json_l & L1.complement())
+        rep.ob(R, "%s|accepts-json-numbers" % nm, w is None, {"scanner": nm, "rfc8259_number_not_accepted": w})
+        if w is not None:
+            rep.violation(R, "%s|rejects-json-number" % nm, "%s does not accept the RFC 8259 number %r" % (nm, w), sc.fn.loc)
+    al = sj.al
+    L1 = sj.token_dfa() & dfa.DFA.literal(al, "").complement()
+    w = scanfsm.witness(L1 & dfa.regex(al, RFC8259_NUMBER).complement())
+    rep.ob(R, "parse_json::lex_number|only-json-numbers", w is None, {"accepted_but_not_rfc8259": w})
+    if w is not None:
+        rep.violation(R, "parse_json::lex_number|accepts-non-json", "std.parseJson's number scanner accepts %r, which is not an "
+                      "RFC 8259 number" % w, sj.fn.loc)
+    follow = {al.sym_of_cp(c) for c in JSON_FOLLOW} | {scanfsm.EOF}
+    for s in sj.states:
+        if s == sj.init:
+            continue
+        accepting = sj.outcome(s, scanfsm.EOF)[0] == "accept"
+        for si in list(range(al.n)) + [scanfsm.EOF]:
+            o = sj.outcome(s, si)
+            if o[0] == "next":
+                continue
+            n += 1
+            if accepting and si in follow and o[0] != "accept":
+                rep.ob(R, "parse_json::lex_number|stop|%s|%s" % (s, sj._sym(si)), False)
+                rep.violation(R, "parse_json::lex_number|follow|%s" % sj._sym(si), "a complete number followed by %s is reported as an "
+                              "error (state %s); RFC 8259 lets a value be followed by whitespace, `,`, `]`, `}` or the end"
+                              % (sj._sym(si), s), sj.fn.loc)
+            elif not accepting and o[0] == "accept":
+                rep.ob(R, "parse_json::lex_number|stop|%s|%s" % (s, sj._sym(si)), False)
+                rep.violation(R, "parse_json::lex_number|cut|%s" % s, "an incomplete number (state %s) followed by %s is cut off and "
+                              "accepted instead of being rejected" % (s, sj._sym(si)), sj.fn.loc)
+            else:
+                rep.ob(R, "parse_json::lex_number|stop|%s|%s" % (s, sj._sym(si)), True)
+    rep.floor(R, n, 600, "(state, symbol) cells of the two scanners")
+
+
 def run(F, rep, tier):
     rep.attempt(rule_r1, F, rep)
     rep.attempt(units.rule_byte_index, F, rep, "C20.R2")
@@ -414,6 +495,7 @@ def run(F, rep, tier):
     rep.attempt(rule_r5, F, rep)
     rep.attempt(rule_r6, F, rep)
     rep.attempt(rule_r7, F, rep)
+    rep.attempt(rule_r8, F, rep)
     # std.escapeStringJson / escapeStringPython are the manifesters' escaper: its per-character table and bulk-copy guard
     from . import c05
     rep.attempt(c05.rule_r1, F, rep)
